@@ -2252,3 +2252,206 @@ func clauseBlobKeyStable(c *Ctx, id string) {
 	volatile := src["url"] || src["header"]
 	c.verdict(c.fnKey(f)+":stable-key", f.Pos(), src["b"] && src["e"] && src["blobURL"] && !volatile, "key = hash(blobURL, begin, end)", fmt.Sprintf("the cache key is derived from %v: after the signed URL is refreshed everything fetched before (prefetch) is keyed by the old URL and reads go back to the registry", sortedKeys(src)))
 }
+
+// clauseBatchPathOnlyForAlignedChunks: the parallel passthrough prefetch slices one batch buffer per merge-buffer span and
+// places every chunk of the batch in it whole; it is sound only when no chunk is larger than the buffer and no chunk lies
+// across a span boundary. GetPassthroughFd must route every other geometry to the sequential path.
+func clauseBatchPathOnlyForAlignedChunks(c *Ctx, id string) {
+	const rp = "fs/reader"
+	c.clause(id, "T1+T6", "GetPassthroughFd takes the batch path (prefetchEntireFile) only behind a flag that is raised both for a chunk larger than the merge buffer and for a chunk whose first and last byte fall into different merge-buffer spans (a test dividing offsets by the buffer size)", 1)
+	f := c.mustFn(rp, "(*file).GetPassthroughFd")
+	if f == nil {
+		return
+	}
+	batch := callsIn(f, idIs(rp+".(*file).prefetchEntireFile"))
+	if len(batch) == 0 {
+		c.okTrivial(c.fnKey(f)+":no-batch-path", f.Pos(), "the batch path is not used")
+		return
+	}
+	var bufParam *ssa.Parameter
+	for _, p := range f.Params {
+		if p.Name() == "mergeBufferSize" {
+			bufParam = p
+		}
+	}
+	// the flag: a bool phi tested on the way to the batch call
+	var flag *ssa.Phi
+	eachInstr(f, func(i ssa.Instruction) {
+		iff, ok := i.(*ssa.If)
+		if !ok {
+			return
+		}
+		cond := iff.Cond
+		if u, ok := cond.(*ssa.UnOp); ok && u.Op == token.NOT {
+			cond = u.X
+		}
+		if ph, ok := cond.(*ssa.Phi); ok && dominatesInstr(iff, batch[0]) {
+			flag = ph
+		}
+	})
+	if flag == nil || bufParam == nil {
+		c.bad(c.fnKey(f)+":batch-path-gate", batch[0].Pos(), "the batch path is not guarded by a geometry flag")
+		return
+	}
+	okGate, _ := mustPass(f, batch[0], newCuts().addEdges(boolEdges(f, flag, false)))
+	// conditions under which the flag becomes true: the comparisons evaluated on the way to a `true` edge of the flag's phis
+	hasSize, hasSpan := false, false
+	var inspect func(v ssa.Value, d int)
+	seen := map[ssa.Value]bool{}
+	inspect = func(v ssa.Value, d int) {
+		v = stripConv(v)
+		if v == nil || d > 8 || seen[v] {
+			return
+		}
+		seen[v] = true
+		b, ok := v.(*ssa.BinOp)
+		if !ok {
+			return
+		}
+		if (b.Op == token.QUO || b.Op == token.REM) && stripConv(b.Y) == ssa.Value(bufParam) {
+			hasSpan = true
+		}
+		if (b.Op == token.GTR || b.Op == token.LSS || b.Op == token.GEQ || b.Op == token.LEQ) && (stripConv(b.Y) == ssa.Value(bufParam) || stripConv(b.X) == ssa.Value(bufParam)) {
+			hasSize = true
+		}
+		inspect(b.X, d+1)
+		inspect(b.Y, d+1)
+	}
+	var phis []*ssa.Phi
+	collect := map[*ssa.Phi]bool{}
+	var gather func(ph *ssa.Phi)
+	gather = func(ph *ssa.Phi) {
+		if collect[ph] {
+			return
+		}
+		collect[ph] = true
+		phis = append(phis, ph)
+		for _, e := range ph.Edges {
+			if q, ok := stripConv(e).(*ssa.Phi); ok {
+				gather(q)
+			}
+		}
+	}
+	gather(flag)
+	for _, ph := range phis {
+		for ei, e := range ph.Edges {
+			if !isConstBool(e, true) {
+				continue
+			}
+			// all branch conditions that dominate the predecessor of this edge inside the loop
+			pred := ph.Block().Preds[ei]
+			// every branch evaluated in the same iteration on a way to this assignment
+			hdr := newCuts().addInstr(flag.Block().Instrs[0])
+			for _, b := range f.Blocks {
+				iff, ok := b.Instrs[len(b.Instrs)-1].(*ssa.If)
+				if !ok {
+					continue
+				}
+				if b == pred {
+					inspect(iff.Cond, 0)
+					continue
+				}
+				if hit, _ := reach(f, iff, isInstr(pred.Instrs[0]), hdr); hit != nil {
+					inspect(iff.Cond, 0)
+				}
+			}
+		}
+	}
+	c.verdict(c.fnKey(f)+":batch-path-gate", batch[0].Pos(), okGate && hasSize && hasSpan, "batch path only when every chunk fits into one merge-buffer span", fmt.Sprintf("the batch path can be taken for a chunk that lies across a merge-buffer boundary (size test: %v, span test: %v): processBatchChunks then slices the batch buffer beyond its length and the panic in its goroutine takes the process down", hasSize, hasSpan))
+}
+
+// clauseGivenUpResultIsReleased: a goroutine that reports a reference-counted result on a channel to a receiver that may
+// give up (select with a timeout) must always be able to deliver (buffered channel), and the path that gave up must
+// still take a late result and release it.
+func clauseGivenUpResultIsReleased(c *Ctx, id string) {
+	c.clause(id, "T2", "filesystem.Mount: the channels its resolve goroutine reports on are buffered, and the timeout path leaves behind a receiver that releases (Done) a layer resolved after the timeout", 2)
+	f := c.mustFn("fs", "(*filesystem).Mount")
+	if f == nil {
+		return
+	}
+	// the select with a time.After case
+	var sel *ssa.Select
+	eachInstr(f, func(i ssa.Instruction) {
+		s, ok := i.(*ssa.Select)
+		if !ok {
+			return
+		}
+		for _, st := range s.States {
+			if call, ok := stripConv(st.Chan).(*ssa.Call); ok && calleeID(call) == "time.After" {
+				sel = s
+			}
+		}
+	})
+	if sel == nil {
+		c.okTrivial(c.fnKey(f)+":no-timeout-select", f.Pos(), "Mount does not give up on a timer")
+		return
+	}
+	var timeoutIdx = -1
+	var chans []ssa.Value
+	for si, st := range sel.States {
+		if call, ok := stripConv(st.Chan).(*ssa.Call); ok && calleeID(call) == "time.After" {
+			timeoutIdx = si
+			continue
+		}
+		chans = append(chans, st.Chan)
+	}
+	// (1) every other channel of the select is buffered
+	for _, ch := range chans {
+		var mk *ssa.MakeChan
+		for _, v := range append([]ssa.Value{ch}, reachingCellVals(ch)...) {
+			if m, ok := stripConv(v).(*ssa.MakeChan); ok {
+				mk = m
+			}
+		}
+		name := valName(stripConv(ch))
+		if mk == nil {
+			c.unk(c.fnKey(f)+":buffered:"+name, sel.Pos(), "cannot find where the channel is made")
+			continue
+		}
+		n, ok := constInt(mk.Size)
+		c.verdict(c.fnKey(f)+":buffered:"+name, mk.Pos(), ok && n >= 1, "the reporting goroutine can always deliver and finish", "the resolve goroutine reports on an unbuffered channel although Mount can give up waiting: after the timeout it blocks forever and the layer it resolved is never released")
+	}
+	// (2) on the timeout edge a goroutine is started that receives a layer and calls Done on it
+	te := condEdges(f, func(cond ssa.Value) int {
+		b, ok := cond.(*ssa.BinOp)
+		if !ok || b.Op != token.EQL {
+			return 0
+		}
+		e, ok := b.X.(*ssa.Extract)
+		if !ok || e.Tuple != ssa.Value(sel) || e.Index != 0 {
+			return 0
+		}
+		if n, ok := constInt(b.Y); ok && int(n) == timeoutIdx {
+			return 1
+		}
+		return 0
+	})
+	released := false
+	for _, e := range te {
+		first := f.Blocks[e.from].Succs[e.succ].Instrs[0]
+		check := func(i ssa.Instruction) bool {
+			g, ok := i.(*ssa.Go)
+			if !ok {
+				return false
+			}
+			lit := goLiteral(g)
+			if lit == nil {
+				return false
+			}
+			done := false
+			for _, ci := range callsIn(lit, func(_ string, ci ssa.CallInstruction) bool {
+				return ci.Common().IsInvoke() && ci.Common().Method.Name() == "Done"
+			}) {
+				_ = ci
+				done = true
+			}
+			return done
+		}
+		if check(first) {
+			released = true
+		} else if hit, _ := reach(f, first, check, nil); hit != nil {
+			released = true
+		}
+	}
+	c.verdict(c.fnKey(f)+":late-result-released", sel.Pos(), released && len(te) > 0, "the timeout path starts a receiver that releases a late result", "after the timeout nobody receives the layer the goroutine may still deliver: its reference is never released and the layer stays pinned with its cache directories")
+}
